@@ -167,9 +167,9 @@ def run_c17(run, tier, wd, binary, replay):
     if p.returncode != 0:
         raise vlib.Infra("values harness failed: " + p.stderr[-800:])
     lines = open(os.path.join(bd, "vt.ndjson")).readlines()
-    monitor_lines(run, bd, "TraceValuePipe", lines, {}, ["C17_TwinHolds", "C17_LiteralAsWritten", "C17_PropIsValue", "C09_NoPanic"],
-                  "real binding", lambda rec: "class %s into %s: prefix %s, value %s, prop %s, literal %s" % (
-                      rec.get("class"), rec.get("ftype"), rec.get("P"), rec.get("V"), rec.get("Q"), rec.get("L")))
+    monitor_lines(run, bd, "TraceValuePipe", lines, {}, ["C17_TwinHolds", "C17_LiteralAsWritten", "C17_PropIsValue", "C17_PrefixExact", "C09_NoPanic"],
+                  "real binding", lambda rec: "class %s into %s%s: configured %s, prefix %s, value %s, prop %s, literal %s" % (
+                      rec.get("class"), rec.get("ftype"), " (field preset)" if rec.get("preset") else "", rec.get("cfg"), rec.get("P"), rec.get("V"), rec.get("Q"), rec.get("L")))
     # known finding F10: the cells where the value path is known to differ from the prefix path
     known = {k["id"]: k for k in vlib.known_for("C17")}
     seen_cells = set()
@@ -183,10 +183,11 @@ def run_c17(run, tier, wd, binary, replay):
         if hit:
             run.known(k, "%d of the listed (class, field type) cells still differ, e.g. %s" % (len(hit), sorted(hit)[0]))
     for c in cases:
-        run.count_case([c["class"], c["ftype"], c["yaml"]], True)
+        run.count_case([c["class"], c["ftype"], c["yaml"], c.get("preset")], True)
     run.sample(json.loads(lines[len(lines) // 2]))
-    run.cov["rule"] = ("cases = lexical value class (32 classes, 1-6 concrete representatives each) x field type (8); each bound by prefix, by "
-                       "placeholder, by prop and as a literal in four separate starts; all are non-trivial")
+    run.cov["rule"] = ("cases = lexical value class (34 classes, 1-6 concrete representatives each) x field type (12: scalars, slices, map, any, pointers, "
+                       "struct, pointer to struct) x field zero / preset before the start; each bound by prefix, by placeholder, by prop and as a "
+                       "literal in four separate starts; all are non-trivial")
     run.cov["explanation"] = ("ValuePipe.tla transcribes the first-match case analysis of FormatAny/ParseAny over lexical classes and predicts, per class "
                               "and field type, whether the text round trip of the value path is the identity; TLC checks the table's consistency; every "
                               "cell is executed on the real container with concrete representatives and judged by TraceValuePipe.tla. Magnitudes and "
@@ -227,10 +228,13 @@ def run_c18(run, tier, wd, binary, replay):
     cases = [dict(kind="expr", text=e["text"], cfg=e["cfg"], val=e["val"]) for e in exprs]
     cases += vl.validate_cases(rng, 300 if tier == "quick" else 5000)
     cases += vl.struct_validate_cases(rng, 150 if tier == "quick" else 3000)
+    cases += vl.modifier_cases(rng, 200 if tier == "quick" else 4000)
     if replay:
         rec = json.load(open(replay))["replay"]["record"]
         if rec["kind"] == "expr":
             cases = [dict(kind="expr", text=rec["text"], cfg=rec["cfg"], val=rec["want"])]
+        elif rec["kind"] == "vslice":
+            cases = [dict(kind="vslice", xs=rec["xs"], cons=rec["cons"])]
         else:
             cases = [dict(kind=rec["kind"], val=rec["x"], cons=rec["cons"])]
     vlib.write_ndjson(os.path.join(bd, "in.ndjson"), cases)
@@ -240,14 +244,15 @@ def run_c18(run, tier, wd, binary, replay):
     lines = open(os.path.join(bd, "vt.ndjson")).readlines()
     monitor_lines(run, bd, "TraceValuePipe", lines, {}, ["C18_ExprResult", "C18_ValidateIff", "C09_NoPanic"], "real binding",
                   lambda rec: ("expression %r with %s: bound %s, expected %s" % (rec.get("text"), rec.get("cfg"), rec.get("got"), rec.get("want")))
-                  if rec["kind"] == "expr" else ("%s value %s with constraints %s: ok=%s" % (rec["kind"], rec.get("x"), rec.get("cons"), rec.get("ok"))), chunk=5000)
+                  if rec["kind"] == "expr" else ("%s value %s with constraints %s: ok=%s" % (rec["kind"], rec.get("x", rec.get("xs")), rec.get("cons"), rec.get("ok"))), chunk=5000)
     for c in cases:
-        run.count_case(c, c["kind"] == "validate" or "${" in c.get("text", ""))
+        run.count_case(c, c["kind"] in ("validate", "vslice", "vstruct") or "${" in c.get("text", ""))
     run.sample(json.loads(lines[min(7, len(lines) - 1)]))
     run.sample(json.loads(lines[-1]))
     run.cov["rule"] = ("expression cases = every tree up to depth 2 over + - * > == && ||, literals 0..3 / true / false and placeholders ${a} ${b} x 3 "
                        "configurations, exported by TLC with the value TLA+ computes (ill-typed ones: error); validation cases = every value 0..3 x every "
-                       "single constraint, plus seeded combinations; non-trivial = has a placeholder inside the expression, or is a validation case")
+                       "single constraint, plus seeded combinations, plus the positional modifiers: omitempty before / after every constraint on every value, "
+                       "dive on lists of 1-4 elements with constraints on the length before it and on the elements after it; non-trivial = has a placeholder inside the expression, or is a validation case")
     run.cov["explanation"] = ("the stage order of orders.go is the pipeline of ValuePipe.tla; the expression fragment and the constraints are evaluated by TLA+ "
                               "itself and compared with what the real container bound / whether start-up failed; the full expr / validator languages are out of scope")
-    run.assumptions += ["fully parenthesised expressions, integers and booleans only", "constraints required / min / max / eq on int fields"]
+    run.assumptions += ["fully parenthesised expressions, integers and booleans only", "constraints required / min / max / eq and the modifiers omitempty / dive, on int and []int fields"]
